@@ -300,6 +300,12 @@ class FacebookPhoto(FacebookParsedItem):
                 "/%s/a.%s/%s" % (self.parent_handle, self.album_id, self.id),
             )
 
+        if self.album_id:
+            return urljoin(
+                BASE_FACEBOOK_URL,
+                "/photo.php?fbid=%s&set=a.%s" % (self.id, self.album_id),
+            )
+
         return urljoin(BASE_FACEBOOK_URL, "/photo.php?fbid=%s" % self.id)
 
 
